@@ -1199,8 +1199,9 @@ class EtreeElementNode(ElementNode):
         return ''.join(etree_iter_strings(self.value))
 
     def apply_schema(self, schema: ta.SchemaProxyType) -> None:
-        if self.tree.schema is schema and not schema.is_assertion_based():
-            return
+        if self.tree.schema is schema and self.xsd_type is not None \
+                and not schema.is_assertion_based():
+            return  # already typed by this proxy (types cleared => apply again)
         self.tree.schema = schema
 
         if not schema.is_fully_valid():
